@@ -15,6 +15,7 @@
 //   rows  <api> <dests> <fv> <logical response> <wire>   spec-backed: cells through scan|scanner|mapscan|slicemap
 //   rowsx <api> <dests> <fv> <logical response> <wire>   model-vs-code: nil destinations (KF-C04-3 on tuple columns), tuple<> columns, duplicate RowData names, malformed rows
 //   skip / skipx  end to end through a real Session on the in-memory cluster, see e2e.go
+//   reuse / reusex  typed destinations reused across the rows of a page, see reuse.go
 package main
 
 import (
@@ -122,7 +123,7 @@ func execRows(api, dests string, fv int, wire []byte) string {
 			for i := 0; i < w; i++ {
 				ds = append(ds, &rec{log: &log, idx: i, fv: byte(fv)})
 			}
-			return ds
+			return ds[:len(ds):len(ds)]
 		}
 		for i, c := range dests {
 			if c == '1' {
@@ -131,7 +132,10 @@ func execRows(api, dests string, fv int, wire []byte) string {
 				ds = append(ds, nil)
 			}
 		}
-		return ds
+		// capacity = length: scanColumn's `dest[:count]` on a tuple column that needs more destinations than are left
+		// must not silently reach into spare capacity left by append (the outcome would depend on how the caller
+		// built the slice; the model says: slice bounds out of range)
+		return ds[:len(ds):len(ds)]
 	}
 	var rows []string
 	switch api {
@@ -256,6 +260,8 @@ func exec(op string) (res string) {
 		return execRows(w[1], w[2], atoi(w[3]), unhex(w[len(w)-1]))
 	case "skip", "skipx":
 		return execSkip(w)
+	case "reuse", "reusex":
+		return execReuseOp(w)
 	}
 	return "bad-op"
 }
